@@ -644,6 +644,22 @@ fn dfs(ctx: &mut Ctx, c: &Cfg20, trace: &mut Vec<Act>, nlocal: usize, visited: &
         let mut visit = |ctx: &mut Ctx, node: &LatticeNode| {
             let rep = node.recv.rep();
             if let Some(wk) = weak_at(rep, c.kind) {
+                // a quotation can only be read once both of its boundary elements are there
+                if c.kind != 'm' {
+                    let sd = rep.store_dump();
+                    for id in [wk.start_id(), wk.end_id()].into_iter().flatten() {
+                        let pid = (id.client.get(), id.clock);
+                        if !integrated(&sd, pid) {
+                            ctx.violation(
+                                "quotation",
+                                "quotation-integrated-before-its-boundary-element",
+                                format!("fresh replica after delivery path {:?}: the quotation is integrated and readable although its boundary element {:?} has not arrived ({})", node.path, pid, show_store(&sd).replace('\n', " ")),
+                                casef(node.path),
+                            );
+                            return;
+                        }
+                    }
+                }
                 let got = deref(rep, c.kind, &wk);
                 if let Some(want) = w.expected(rep, c.kind) {
                     if got != want {
@@ -731,6 +747,16 @@ fn replay(ctx: &mut Ctx, case: &Value) {
                 }
             }
             if let Some(wk) = weak_at(rep, c.kind) {
+                if c.kind != 'm' {
+                    let sd = rep.store_dump();
+                    for id in [wk.start_id(), wk.end_id()].into_iter().flatten() {
+                        let pid = (id.client.get(), id.clock);
+                        if !integrated(&sd, pid) {
+                            ctx.violation("quotation", "quotation-integrated-before-its-boundary-element", format!("fresh replica: quotation readable although its boundary element {:?} has not arrived", pid), cj());
+                            return;
+                        }
+                    }
+                }
                 let got = deref(rep, c.kind, &wk);
                 if let Some(want) = w.expected(rep, c.kind) {
                     if got != want {
